@@ -369,8 +369,7 @@ impl DbcParser {
         // The counts come straight from the file: pre-allocate no more records than
         // the data could hold
         let max_records = self.data.len() / (self.header.record_size as usize).max(1);
-        let mut records =
-            Vec::with_capacity((self.header.record_count as usize).min(max_records));
+        let mut records = Vec::with_capacity((self.header.record_count as usize).min(max_records));
 
         for _ in 0..self.header.record_count {
             let record = if let Some(schema) = &self.schema {
